@@ -62,25 +62,30 @@ enum Ev {
     DistMax(String, u64),
     Sample(Value),
     Fail(String, Option<String>, Value, String),
-    Coq(u32, String, Value),
+    Coq(u32, u8, String, Value),
 }
 pub struct Cx {
     ev: Vec<Ev>,
     pub th: bool,
     coq_used: HashMap<u32, usize>,
-    /// this job's share of the per-operation budget of Coq cases (percent)
+    /// this job's share (percent) of its category's budget of Coq cases per operation
     coq_share: usize,
+    /// generator family the job belongs to: 0 enumerated, 1 boundary, 2 random, 3 crafted, 4 corpus / replay
+    cat: u8,
 }
 fn fnv64(s: &str) -> u64 {
     let mut h: u64 = 0xcbf29ce484222325;
     for b in s.bytes() { h ^= b as u64; h = h.wrapping_mul(0x100000001b3); }
     h
 }
-fn coq_cap(op: u32, th: bool) -> usize {
-    (if th { 4 } else { 1 }) * match op { 1 => 170, 2 => 260, 3 => 170, 4 => 230, 5 => 200, 6 => 260, _ => 40 }
+/// Coq cases per (operation, generator family): every modelled function is represented by every family
+fn coq_cap(op: u32, cat: u8, th: bool) -> usize {
+    let per_op = match op { 1 => 290, 2 => 420, 3 => 190, 4 => 260, 5 => 220, 6 => 300, _ => 40 };
+    let pct = match cat { 0 => 15, 1 => 30, 2 => 15, 3 => 40, _ => 100 };
+    (if th { 4 } else { 1 }) * per_op * pct / 100
 }
 impl Cx {
-    pub fn new(th: bool, coq_share: usize) -> Self { Cx { ev: vec![], th, coq_used: HashMap::new(), coq_share } }
+    pub fn new(th: bool, coq_share: usize, cat: u8) -> Self { Cx { ev: vec![], th, coq_used: HashMap::new(), coq_share, cat } }
     fn eval(&mut self, cell: &str, key: &str, nontrivial: bool) {
         self.ev.push(Ev::Eval(cell.to_string(), format!("{} {:016x} {}", cell, fnv64(key), key.len()), nontrivial));
     }
@@ -91,7 +96,7 @@ impl Cx {
         self.ev.push(Ev::Fail(cell.to_string(), class.map(|c| c.to_string()), case, detail.to_string()));
     }
     /// Apply the recorded events; `used` is the run-wide count of Coq cases per operation.
-    pub fn flush(self, sum: &mut Summary, shards: &mut CoqShards, used: &mut HashMap<u32, usize>) {
+    pub fn flush(self, sum: &mut Summary, shards: &mut CoqShards, used: &mut HashMap<(u32, u8), usize>) {
         let th = self.th;
         for e in self.ev {
             match e {
@@ -100,9 +105,9 @@ impl Cx {
                 Ev::DistMax(k, v) => sum.dist_max(&k, v),
                 Ev::Sample(v) => sum.sample(v),
                 Ev::Fail(c, cl, case, d) => sum.fail(&c, cl.as_deref(), case, &d),
-                Ev::Coq(op, term, cj) => {
-                    let u = used.entry(op).or_insert(0);
-                    if *u < coq_cap(op, th) || cj["force"] == json!(true) { *u += 1; shards.push(term, cj); }
+                Ev::Coq(op, cat, term, cj) => {
+                    let u = used.entry((op, cat)).or_insert(0);
+                    if *u < coq_cap(op, cat, th) || cj["force"] == json!(true) { *u += 1; shards.push(term, cj); }
                 }
             }
         }
@@ -236,7 +241,7 @@ fn obs(r: &Result<Vec<u8>, String>) -> Vec<u128> {
 }
 impl Cx {
     fn coq(&mut self, op: u32, a: Vec<u128>, b: &[u8], expect: Vec<u128>, what: &str, force: bool) {
-        let cap = (coq_cap(op, self.th) * self.coq_share + 99) / 100;
+        let cap = (coq_cap(op, self.cat, self.th) * self.coq_share + 99) / 100;
         let weight = a.len() + b.len() + expect.len();
         if weight > 6000 { return; }
         let used = self.coq_used.entry(op).or_insert(0);
@@ -245,7 +250,7 @@ impl Cx {
         let term = format!("({}, {}, {}, {})", op, coq_n_list(a.iter().cloned()), coq_bytes(b), coq_n_list(expect.iter().cloned()));
         let cj = json!({"op": op, "what": what, "force": force, "a": a.iter().map(|x| x.to_string()).collect::<Vec<_>>(), "b": b,
                         "impl_obs": expect.iter().map(|x| x.to_string()).collect::<Vec<_>>()});
-        self.ev.push(Ev::Coq(op, term, cj));
+        self.ev.push(Ev::Coq(op, self.cat, term, cj));
     }
 }
 
@@ -368,7 +373,7 @@ fn case_order0(cx: &mut Cx, train: &[u8], freqs: Option<[u32; 256]>, data: &[u8]
             let st = se.tree().clone();
             let r = guarded(|| es(se.encode(data)));
             if let (Some(ft), Ok(Ok(b))) = (&flat, &r) {
-                if table_of(&st) == table { cx.coq(1, ft.clone(), data, obs(&Ok(b.clone())), "SimdHuffmanEncoder::encode", false); }
+                if table_of(&st) == table && *name == TIERS[data.len() % 6].1 { cx.coq(1, ft.clone(), data, obs(&Ok(b.clone())), "SimdHuffmanEncoder::encode", false); }
             }
             judge(cx, &cell, &cj, data, r, &mut |b, n| { let d = HuffmanDecoder::new(st.clone()); guarded(|| es(d.decode(b, n))) });
         }
@@ -714,13 +719,15 @@ pub fn run_one(cx: &mut Cx, c: &Value) -> bool {
 }
 
 type Job = Box<dyn FnOnce(&mut Cx, &mut Rng) + Send>;
+/// (job, percent of the family's Coq budget, generator family)
+type JobSpec = (Job, usize, u8);
 
 /// Runs the jobs on worker threads, each with its own Rng (seeded from the run's Rng before anything starts), and
 /// applies their records in job order.
-fn run_jobs(jobs: Vec<(Job, usize)>, sum: &mut Summary, shards: &mut CoqShards, rng: &mut Rng, th: bool, used: &mut HashMap<u32, usize>) {
+fn run_jobs(jobs: Vec<JobSpec>, sum: &mut Summary, shards: &mut CoqShards, rng: &mut Rng, th: bool, used: &mut HashMap<(u32, u8), usize>) {
     use std::sync::{atomic::{AtomicUsize, Ordering}, Mutex};
     let n = jobs.len();
-    let slots: Vec<Mutex<Option<(Job, usize, Rng)>>> = jobs.into_iter().map(|(j, share)| Mutex::new(Some((j, share, Rng::new(rng.next()))))).collect();
+    let slots: Vec<Mutex<Option<(Job, usize, u8, Rng)>>> = jobs.into_iter().map(|(j, share, cat)| Mutex::new(Some((j, share, cat, Rng::new(rng.next()))))).collect();
     let done: Vec<Mutex<Option<Cx>>> = (0..n).map(|_| Mutex::new(None)).collect();
     let next = AtomicUsize::new(0);
     let workers = std::thread::available_parallelism().map(|x| x.get()).unwrap_or(4).min(16);
@@ -729,8 +736,8 @@ fn run_jobs(jobs: Vec<(Job, usize)>, sum: &mut Summary, shards: &mut CoqShards, 
             sc.spawn(|| loop {
                 let i = next.fetch_add(1, Ordering::SeqCst);
                 if i >= n { break; }
-                let (job, share, mut r) = slots[i].lock().unwrap().take().unwrap();
-                let mut cx = Cx::new(th, share);
+                let (job, share, cat, mut r) = slots[i].lock().unwrap().take().unwrap();
+                let mut cx = Cx::new(th, share, cat);
                 // library calls are individually guarded; this guard only keeps a harness slip from taking the run down
                 if let Err(p) = guarded(|| job(&mut cx, &mut r)) {
                     cx.fail("harness", None, json!({"cell": "harness", "job": i}), &format!("job {} panicked outside a guarded call: {}", i, p));
@@ -747,7 +754,7 @@ pub fn run_cells(sum: &mut Summary, shards: &mut CoqShards, rng: &mut Rng, args:
     for c in ["huffman/order0/serialized_tree", "simd/avx2bmi2", "simd/avx2", "simd/sse42bmi2", "simd/sse42", "simd/bmi2", "simd/scalar", "parallel/adaptive", "bit_ops/varlen"] {
         sum.cell_status(c, "S-only");
     }
-    let mut jobs: Vec<(Job, usize)> = vec![];
+    let mut jobs: Vec<JobSpec> = vec![];
     // 1. enumerated universe: all strings of length <= 3 over a 3-letter alphabet x every variant x three trainings
     let abc = [b'a', 0u8, 255u8];
     let mut universe: Vec<Vec<u8>> = vec![vec![]];
@@ -766,7 +773,7 @@ pub fn run_cells(sum: &mut Summary, shards: &mut CoqShards, rng: &mut Rng, args:
                 }
             }
             case_adaptive(cx, &x);
-        }), 4));
+        }), 5, 0));
     }
     // 2. boundary lengths x alphabets x skews, order-0 family
     for (li, &n) in EDGE_LENS.iter().enumerate() {
@@ -783,7 +790,7 @@ pub fn run_cells(sum: &mut Summary, shards: &mut CoqShards, rng: &mut Rng, args:
                 if li == 10 && ai < 3 { cx.sample(json!({"kind": "order0", "alphabet": k, "family": fam, "len": n, "training_kind": tk})); }
                 case_order0(cx, &t, None, &x, extras, false);
             }
-        }), 8));
+        }), 10, 1));
     }
     // payloads beyond the SIMD encoder's size classes (1 KiB, 8 KiB) with short and long codes
     jobs.push((Box::new(move |cx: &mut Cx, rng: &mut Rng| {
@@ -792,7 +799,7 @@ pub fn run_cells(sum: &mut Summary, shards: &mut CoqShards, rng: &mut Rng, args:
             let x = payload(rng, 8, n, &al);
             case_order0(cx, &x, None, &x, 3, false);
         }
-    }), 0));
+    }), 0, 1));
     // from_frequencies: counts the byte-counting constructors never see
     jobs.push((Box::new(move |cx: &mut Cx, rng: &mut Rng| {
         for k in 0..(if cx.th { 400 } else { 60 }) {
@@ -811,7 +818,7 @@ pub fn run_cells(sum: &mut Summary, shards: &mut CoqShards, rng: &mut Rng, args:
             let x = payload(rng, fam, n, &al);
             case_order0(cx, &[], Some(f), &x, 4, false);
         }
-    }), 15));
+    }), 25, 2));
     // 3. contextual coders and interleaved streams: boundary lengths (incl. N-1, N, N+1 for each stream count)
     for (li, &n) in EDGE_LENS.iter().enumerate() {
         for (ai, &k) in [1usize, 2, 3, 16, 66, 255, 256].iter().enumerate() {
@@ -828,11 +835,11 @@ pub fn run_cells(sum: &mut Summary, shards: &mut CoqShards, rng: &mut Rng, args:
                     if li == 9 && ai < 3 && order == 1 { cx.sample(json!({"kind": "contextual", "order": order, "alphabet": k, "family": fam, "len": n, "training_kind": tk, "streams_mask": mask})); }
                     case_ctx(cx, order, &t, &x, mask, false);
                 }
-            }), 2));
+            }), 4, 1));
         }
     }
     // 4. random cases
-    for chunk in 0..(if th { 150 } else { 13 }) {
+    for chunk in 0..(if th { 300 } else { 30 }) {
         jobs.push((Box::new(move |cx: &mut Cx, rng: &mut Rng| {
             for k in 0..20 {
                 let ak = *rng.pick(&ALPHA_SIZES);
@@ -848,10 +855,10 @@ pub fn run_cells(sum: &mut Summary, shards: &mut CoqShards, rng: &mut Rng, args:
                     _ => case_adaptive(cx, &x),
                 }
             }
-        }), 8));
+        }), 6, 2));
     }
     // 5. encoders obtained through the public deserialize from well-formed crafted tables
-    for chunk in 0..(if th { 200 } else { 21 }) {
+    for chunk in 0..(if th { 500 } else { 50 }) {
         jobs.push((Box::new(move |cx: &mut Cx, rng: &mut Rng| {
             for k in 0..20usize {
                 let order = ((k + chunk) % 3) as u8;
@@ -867,7 +874,7 @@ pub fn run_cells(sum: &mut Summary, shards: &mut CoqShards, rng: &mut Rng, args:
                 if chunk == 0 && k < 3 { cx.sample(json!({"kind": "crafted", "order": order, "trees": v.trees.len(), "max_code_len": v.trees.iter().map(max_len).max(), "len": x.len()})); }
                 case_crafted(cx, &v, &x, mask, false);
             }
-        }), 10));
+        }), 4, 3));
     }
     // 6. bit_ops variable-length fields
     jobs.push((Box::new(move |cx: &mut Cx, rng: &mut Rng| {
@@ -876,7 +883,7 @@ pub fn run_cells(sum: &mut Summary, shards: &mut CoqShards, rng: &mut Rng, args:
             let value = match k % 4 { 0 => u32::MAX, 1 => rng.next() as u32, 2 => (1u64 << length.min(32)).wrapping_sub(1) as u32, _ => 1u32.checked_shl(length).unwrap_or(0) };
             case_varlen(cx, value, length, k % 2 == 0);
         }
-    }), 0));
+    }), 0, 2));
     let mut used = HashMap::new();
     run_jobs(jobs, sum, shards, rng, th, &mut used);
 }
@@ -890,7 +897,7 @@ pub fn run(args: &Args) {
         let txt = std::fs::read_to_string(f).expect("replay file");
         let v: Value = serde_json::from_str(&txt).expect("replay json");
         let c = if v.get("case").is_some() { v["case"].clone() } else { v };
-        let mut cx = Cx::new(args.thorough, 100);
+        let mut cx = Cx::new(args.thorough, 100, 4);
         run_one(&mut cx, &c); // the other half: `|| b::run_one(...)`
         cx.flush(&mut sum, &mut shards, &mut HashMap::new());
         let sh = shards.write(&args.out);
@@ -900,7 +907,7 @@ pub fn run(args: &Args) {
     if let Ok(rd) = std::fs::read_dir("corpus/C01") {
         let mut files: Vec<_> = rd.filter_map(|e| e.ok()).map(|e| e.path()).filter(|p| p.extension().map(|e| e == "json").unwrap_or(false)).collect();
         files.sort();
-        let mut cx = Cx::new(args.thorough, 100);
+        let mut cx = Cx::new(args.thorough, 100, 4);
         for p in files {
             if let Ok(txt) = std::fs::read_to_string(&p) {
                 if let Ok(v) = serde_json::from_str::<Value>(&txt) {
